@@ -1,7 +1,23 @@
-"""Independent SMILES reader (prototype) - no selfies imports.
+"""O1 - independent SMILES reader.  Imports nothing from selfies.
 
-Reads a SMILES string into atoms + per-atom written neighbour order.
-Strict: raises SmiError on anything not legal OpenSMILES-ish syntax.
+Written from the OpenSMILES grammar:
+    chain         ::= branched_atom ( bond? branched_atom | dot branched_atom )*
+    branched_atom ::= atom ringbond* branch*
+    branch        ::= '(' bond? chain ')'
+    ringbond      ::= bond? DIGIT | bond? '%' DIGIT DIGIT
+Strict mode rejects everything outside it (unbalanced branches, ring label not closed / closed twice,
+self bond, second bond between a bonded pair, conflicting ring-bond symbols, leading / trailing bond,
+leading / trailing / doubled dot, ring digit after a branch, empty branch).
+
+tolerant=True additionally accepts the spellings selfies.encoder is lenient about (and which are
+therefore inside the domain "every SMILES the encoder accepts"): a bond symbol before the first atom
+of a fragment (ignored), empty fragments (doubled / trailing dots), ring-bond digits written after a
+branch.  The written neighbour order is simply the order of appearance in both modes.
+
+read_smiles(s) -> list of Atom; Atom.nbrs is the *written neighbour sequence*: entries
+[kind, other, order, mark] with kind in {"prev","ring","child"}, order None when no bond symbol was
+written, mark '/' or '\\' as written at this end of the bond (for a chain bond the symbol is written
+once and recorded on both ends).
 """
 import re
 
@@ -10,25 +26,31 @@ AROMATIC = ("b", "c", "n", "o", "p", "s")
 BRACKET = re.compile(
     r"^\[(\d*)([A-Z][a-z]?|[a-z][a-z]?)(@{0,2})(?:H(\d?))?((?:\+\+*|--*|[+-]\d+)?)(?::(\d+))?\]$")
 BOND_ORDER = {"-": 1, "=": 2, "#": 3, ":": 1.5, "/": 1, "\\": 1}
+MARKS = ("/", "\\")
 
 
 class SmiError(Exception):
     pass
 
 
-class A:
-    __slots__ = ("elem", "arom", "iso", "chir", "h", "charge", "bracket", "nbrs", "text")
+class Atom:
+    __slots__ = ("elem", "arom", "iso", "chir", "h", "charge", "bracket", "nbrs", "text", "pos", "cls")
 
     def __init__(self):
-        self.nbrs = []  # written order: entries [kind, other, order, mark]  kind in prev/ring/child/H
+        self.nbrs = []
 
     def key(self):
+        """element, isotope, explicit-H count (None = implicit, organic subset), charge"""
+        return (self.elem, self.iso, self.h, self.charge)
+
+    def fullkey(self):
         return (self.elem, self.iso, self.chir, self.h, self.charge)
 
 
 def read_atom(tok):
-    a = A()
+    a = Atom()
     a.text = tok
+    a.cls = None
     if tok[0] != "[":
         a.bracket = False
         a.iso = None
@@ -45,12 +67,13 @@ def read_atom(tok):
     m = BRACKET.match(tok)
     if not m:
         raise SmiError("bad bracket atom " + tok)
-    iso, el, chir, h, ch, _cls = m.groups()
+    iso, el, chir, h, ch, cls = m.groups()
     a.bracket = True
     a.iso = int(iso) if iso else None
     a.arom = el[0].islower()
     a.elem = el.capitalize()
     a.chir = chir or None
+    a.cls = cls
     if h is None:
         a.h = 0
     else:
@@ -64,38 +87,34 @@ def read_atom(tok):
     return a
 
 
-def read_smiles(s, max_ring_label=99):
-    """returns list of atoms; atoms[i].nbrs in written order.
-    nbr entry: (kind, j, order, mark) ; order None = implicit bond symbol.
-    """
+def read_smiles(s, tolerant=False):
     atoms = []
     i, n = 0, len(s)
-    prev = None           # index of atom the next thing attaches to
+    prev = None           # index of the atom the next item attaches to (None at fragment start)
     stack = []
     pending = None        # pending bond symbol
     open_rings = {}       # label -> (atom, bond symbol, slot index in nbrs)
     bonded = set()
-    frag_has_atom = False
-    just_opened = False   # directly after '(' or start/dot
+    just_opened = False   # directly after '('
+    after_branch = False  # directly after ')' (ring digits illegal in strict mode)
     if n == 0:
         raise SmiError("empty")
 
     def add_bond(a, b, sym_a, sym_b, kind_a, kind_b, slot_a=None):
         if a == b:
             raise SmiError("self bond")
-        k = (min(a, b), max(a, b))
+        k = (a, b) if a < b else (b, a)
         if k in bonded:
             raise SmiError("duplicate bond")
         bonded.add(k)
         syms = [x for x in (sym_a, sym_b) if x is not None]
-        marks = {"/", "\\"}
-        if len(syms) == 2 and syms[0] != syms[1] and not (syms[0] in marks and syms[1] in marks):
+        if len(syms) == 2 and syms[0] != syms[1] and not (syms[0] in MARKS and syms[1] in MARKS):
             raise SmiError("ring bond symbol mismatch")
         order = None
         for x in syms:
             order = BOND_ORDER[x]
-        ea = [kind_a, b, order, sym_a if sym_a in marks else None]
-        eb = [kind_b, a, order, sym_b if sym_b in marks else None]
+        ea = [kind_a, b, order, sym_a if sym_a in MARKS else None]
+        eb = [kind_b, a, order, sym_b if sym_b in MARKS else None]
         if slot_a is None:
             atoms[a].nbrs.append(ea)
         else:
@@ -113,12 +132,16 @@ def read_smiles(s, max_ring_label=99):
                 raise SmiError("dangling bond")
             continue
         if c == ".":
-            if pending is not None or stack or prev is None or just_opened:
+            if pending is not None or stack or just_opened:
                 raise SmiError("bad dot")
+            if prev is None and not (tolerant and atoms):
+                raise SmiError("bad dot")
+            if open_rings:
+                raise SmiError("ring bond across dot")     # selfies does not support it; outside the domain
             prev = None
-            frag_has_atom = False
+            after_branch = False
             i += 1
-            if i == n:
+            if i == n and not tolerant:
                 raise SmiError("trailing dot")
             continue
         if c == "(":
@@ -126,21 +149,20 @@ def read_smiles(s, max_ring_label=99):
                 raise SmiError("bad (")
             stack.append(prev)
             just_opened = True
+            after_branch = False
             i += 1
             continue
         if c == ")":
             if pending is not None or not stack or just_opened:
                 raise SmiError("bad )")
             prev = stack.pop()
+            after_branch = True
             i += 1
-            # after ')' only '(' , atom/bond, or ')' allowed .. ring digit after branch is nonstandard
-            if i < n and (s[i].isdigit() or s[i] == "%"):
-                raise SmiError("ring digit after branch")
             continue
-        if c.isdigit() or c == "%":
+        if (c.isdigit() and c.isascii()) or c == "%":
             if c == "%":
                 lab = s[i + 1:i + 3]
-                if len(lab) != 2 or not lab.isdigit():
+                if len(lab) != 2 or not (lab.isdigit() and lab.isascii()):
                     raise SmiError("bad % label")
                 i += 3
             else:
@@ -149,6 +171,8 @@ def read_smiles(s, max_ring_label=99):
             lab = int(lab)
             if prev is None or just_opened:
                 raise SmiError("ring digit without atom")
+            if after_branch and not tolerant:
+                raise SmiError("ring digit after branch")
             if lab in open_rings:
                 a, sym_a, slot = open_rings.pop(lab)
                 add_bond(a, prev, sym_a, pending, "ring", "ring", slot)
@@ -158,6 +182,7 @@ def read_smiles(s, max_ring_label=99):
             pending = None
             continue
         # atom
+        start = i
         if c == "[":
             j = s.find("]", i)
             if j < 0:
@@ -171,36 +196,95 @@ def read_smiles(s, max_ring_label=99):
             tok = c
             i += 1
         a = read_atom(tok)
+        a.pos = start
         atoms.append(a)
         idx = len(atoms) - 1
         if prev is None and not just_opened:
-            if pending is not None:
+            if pending is not None and not tolerant:
                 raise SmiError("leading bond")
         else:
             p = stack[-1] if just_opened else prev
-            if p is None:
-                raise SmiError("no prev")
             add_bond(p, idx, pending, None, "child", "prev")
-            # fix: child's entry must carry the bond symbol too
-            atoms[idx].nbrs[-1][3] = pending if pending in ("/", "\\") else None
+            atoms[idx].nbrs[-1][3] = pending if pending in MARKS else None
         pending = None
         prev = idx
         just_opened = False
+        after_branch = False
     if pending is not None:
         raise SmiError("dangling bond")
     if stack or just_opened:
         raise SmiError("unclosed (")
     if open_rings:
         raise SmiError("unclosed ring")
+    if not atoms:
+        raise SmiError("no atoms")
     return atoms
 
 
-def graph(atoms):
-    """(atom keys, {(i,j): order}) with implicit bonds resolved (aromatic pair -> 1.5 else 1)."""
+def bonds_of(atoms):
+    """{(i,j): order} with unwritten bond symbols resolved (aromatic pair -> 1.5 else 1)."""
     bonds = {}
     for i, a in enumerate(atoms):
         for kind, j, order, mark in a.nbrs:
             if order is None:
                 order = 1.5 if (a.arom and atoms[j].arom) else 1
-            bonds[(min(i, j), max(i, j))] = order
-    return [(a.elem, a.iso, a.h, a.charge) for a in atoms], bonds
+            bonds[(i, j) if i < j else (j, i)] = order
+    return bonds
+
+
+def graph(atoms):
+    return [a.key() for a in atoms], bonds_of(atoms)
+
+
+def bond_sums(atoms):
+    """per atom: sum of bond orders (aromatic bonds counted 1.5)"""
+    sums = [0] * len(atoms)
+    for (i, j), o in bonds_of(atoms).items():
+        sums[i] += o
+        sums[j] += o
+    return sums
+
+
+def nbr_sequence(a):
+    """neighbour sequence that fixes the sense of a chiral centre: preceding atom, implicit/explicit H,
+    then ring-closure partners and branches/chain in written order."""
+    seq = []
+    ents = a.nbrs
+    k = 0
+    if ents and ents[0] is not None and ents[0][0] == "prev":
+        seq.append(ents[0][1])
+        k = 1
+    if a.h:
+        seq.extend("H%d" % q for q in range(a.h))
+    for e in ents[k:]:
+        seq.append(e[1])
+    return seq
+
+
+def perm_parity(a, b):
+    """parity of the permutation taking sequence a to sequence b (distinct items)"""
+    pos = {x: i for i, x in enumerate(a)}
+    p = [pos[x] for x in b]
+    inv = 0
+    for i in range(len(p)):
+        for j in range(i + 1, len(p)):
+            if p[i] > p[j]:
+                inv += 1
+    return inv % 2
+
+
+def marks_of(atoms):
+    """set of (lo, hi, kind, direction) for every '/' '\\' mark, direction normalised to lo->hi.
+    A chain bond carries one mark (written before the child, read parent->child);
+    a ring bond may carry one mark per end, each read from the atom where it is written."""
+    flip = {"/": "\\", "\\": "/"}
+    out = set()
+    for i, a in enumerate(atoms):
+        for kind, j, o, mk in a.nbrs:
+            if mk is None or kind == "prev":
+                continue
+            if kind == "child":
+                out.add((i, j, mk))
+            else:
+                out.add((min(i, j), max(i, j), mk if i < j else flip[mk]))
+    return out
